@@ -62,6 +62,7 @@ class Unit:
     weight: int = 1                   # rough cores/mem weight for the scheduler
     slice: str = ""                   # what slice of the property this unit decides
     add_library: bool = True          # link CBMC's libc models (memset/memcpy/...) before DFCC
+    pregen: Optional[str] = None      # name of a per-run header generator in vlib/pregen.py
 
 
 @dataclass
@@ -114,12 +115,43 @@ def prop_class(name: str, desc: str) -> str:
     return "assertion"
 
 
+_SRC_CACHE = {}
+
+
+def _src_tags(loc: str):
+    """property tags written as a comment on (or up to 3 lines above, within the same clause) the source line of a contract clause"""
+    try:
+        f, ln = loc.rsplit(":", 1)
+        ln = int(ln)
+    except Exception:
+        return []
+    if not f.startswith(VERIF):
+        return []
+    if f not in _SRC_CACHE:
+        try:
+            _SRC_CACHE[f] = open(f).read().splitlines()
+        except OSError:
+            _SRC_CACHE[f] = []
+    lines = _SRC_CACHE[f]
+    if not (1 <= ln <= len(lines)):
+        return []
+    # a clause may span several lines: scan forward to the line that closes it (next clause / end)
+    tags = re.findall(r"\[(C\d\d)\]", lines[ln - 1])
+    k = ln
+    while not tags and k < len(lines) and not re.match(r"\s*(__CPROVER_|;|/\*\s*clang)", lines[k]):
+        tags = re.findall(r"\[(C\d\d)\]", lines[k])
+        k += 1
+    return tags
+
+
 def select(u: Unit, pid: str, ob: dict) -> bool:
     """Does obligation `ob` of unit `u` count for property `pid`?"""
     sel = u.props.get(pid)
     if sel is None:
         return False
     tags = re.findall(r"\[(C\d\d)\]", ob["description"])
+    if not tags and ob.get("class") in ("postcondition", "precondition"):
+        tags = _src_tags(ob.get("loc", ""))
     if tags:
         return pid in tags
     cls = ob["class"]
@@ -145,6 +177,14 @@ def build_and_check(u: Unit, workdir: str, trace: bool = False, only_props: Opti
     b = os.path.join(workdir, "b.gb")
     srcs = [os.path.join(VERIF, "harness", u.harness)] + [os.path.join(VERIF, s) for s in u.extra_src]
     defs = BASE_DEFS + [f"-D{GUARD}"] + [f"-D{d}" for d in u.defines]
+    if u.pregen:
+        from vlib import pregen as _pg
+        try:
+            defs = defs + _pg.GENERATORS[u.pregen](workdir)
+        except Exception as e:
+            r.reason = "pregen %s failed: %r" % (u.pregen, e)
+            r.wall_s = time.time() - t0
+            return r
     cc = ["goto-cc", "-std=c99"] + defs + BASE_INCS + ["--function", u.entry] + srcs + ["-o", a]
     r.cmds.append(" ".join(cc))
     rc, out, err, _ = sh(cc, 600, 8)
@@ -266,7 +306,9 @@ def build_and_check(u: Unit, workdir: str, trace: bool = False, only_props: Opti
         r.reason = "vacuity guard: %d obligations < expected minimum %d" % (len(r.obligations), u.min_obligations)
         return r
     # vacuity guards: obligations tagged [VACUITY] are reachability probes that MUST fail
-    vac = [o for o in r.obligations if "[VACUITY]" in o["description"]]
+    vac_all = [o for o in r.obligations if "[VACUITY]" in o["description"]]
+    # probes inside other harness entry functions of the same file are not part of this unit
+    vac = [o for o in vac_all if not (o.get("function", "").startswith("h_") and o.get("function") != u.entry)]
     dead = [o for o in vac if o["status"] != "FAILURE"]
     if dead:
         r.reason = "vacuity guard: reachability probe not reachable: " + "; ".join(o["description"][:80] for o in dead[:4])
